@@ -467,6 +467,12 @@ func TestVerifC14(t *testing.T) {
 			r.Violation("newfromxy-point-wrong-after-in-place-updates", hk.D{"history": hist, "got": ptHex(g), "want": ptHex(shadow)})
 			break
 		}
+		// the two arrays the point was built FROM are the caller's (the routines pass entries of the precomputed tables):
+		// updating the point in place must not write through to them
+		if xr != *qa.x.GetRaw() || yr != *qa.y.GetRaw() {
+			r.Violation("updating-a-newfromxy-point-rewrites-the-arrays-it-was-built-from", hk.D{"history": hist, "point": ptHex(A)})
+			break
+		}
 		k := lr.Bytes(32)
 		kb, _ := ScalarBaseMult(k)
 		gb, sb := lr.Bytes(32), lr.Bytes(32)
